@@ -266,6 +266,10 @@ func (e *Engine) intrinsic(name string, fn *ssa.Function) (handler, bool) {
 		}
 	}
 	switch {
+	case pkg == "reflect":
+		if h, ok := e.reflectIntrinsic(name, fn); ok {
+			return h, true
+		}
 	case pkg == "sync":
 		if h, ok := e.syncIntrinsic(name, fn); ok {
 			return h, true
@@ -409,6 +413,11 @@ func (e *Engine) intrinsic(name string, fn *ssa.Function) (handler, bool) {
 		return func(c *frame, f *ssa.Function, a []value) value { return e.errorsAs(a[0].(iface), a[1].(iface)) }, true
 	case "runtime/debug.Stack":
 		return func(c *frame, f *ssa.Function, a []value) value { return []value(nil) }, true
+	case "runtime.Caller":
+		// no call-site information in the symbolic run (it only ever feeds names and log lines)
+		return func(c *frame, f *ssa.Function, a []value) value {
+			return tuple{IntC(0), "", IntC(0), False}
+		}, true
 	case "runtime.SetFinalizer", "runtime.KeepAlive", "runtime.Gosched", "runtime.GC":
 		return func(c *frame, f *ssa.Function, a []value) value { return nil }, true
 	case "os.Getenv":
